@@ -34,7 +34,8 @@ OpLine(e) ==
         free == (o.op = "SetPres" /\ ~docs[o.coll][o.key].row)
                 \/ (o.op = "Incr" /\ docs[o.coll][o.key].live /\ ob.cls = "ok" /\ ob.exp = docs[o.coll][o.key].dl)
         nd == IF relok \/ (free /\ ob.cls = "ok") THEN [want EXCEPT !.dl = ob.exp] ELSE want
-        newdocs == [docs EXCEPT ![o.coll][o.key] = nd]
+        newdocs == IF o.op = "Recreate" THEN (IF e.res = "ok" THEN AfterAll(docs, o.op, o.coll, o.key, o.e) ELSE docs)
+                   ELSE [docs EXCEPT ![o.coll][o.key] = nd]
         fDoc(c, k) ==
             LET d == newdocs[c][k]
                 x == ObsOf(e, c, k) IN
